@@ -41,9 +41,10 @@ THEOREMS = [
     "AiuVerif.C09.placement",
     "AiuVerif.C09.no_helper_out",
     "AiuVerif.C09.extraction_consumes_helpers",
+    "AiuVerif.C09.every_send_paired_partial",
     "AiuVerif.C09.prefix_final_loses_multicast",
 ]
-RULE = ("stage-level streams: (i) exhaustive histories up to a length bound over a 12-symbol alphabet of helper "
+RULE = ("stage-level streams: (i) exhaustive histories up to a length bound over a 14-symbol alphabet of helper "
         "slices (two CollGroups, chain/multicast sync groups, short and covering durations); (ii) random chain-"
         "allreduce scenarios, 2..8 ranks, 1..5 groups, receives pre-posted or just-in-time, sequential or "
         "interleaved groups with foreign events in the gap before the multicast part, truncated trailing groups, "
@@ -614,7 +615,9 @@ ALPHA_T = {  # symbol -> (pid, type, peers, sync suffix)
 
 
 def alpha_events(word):
-    """word: list of (symbol, group, long?) -> events at ts 10*i"""
+    """word: list of (symbol, group, long) -> events at ts 10*i; long: False = 5 us (ends before the next event),
+    True = 1000 us (covers everything), "touch" = 10 us (ends exactly at the next event's ts: the `<` of
+    group_candidates)"""
     b = Builder()
     for i, (sym, g, lng) in enumerate(word):
         pid, typ, peers, sfx = ALPHA_T[sym]
@@ -623,7 +626,7 @@ def alpha_events(word):
         if peers is not None:
             a["Peer" if "," not in peers else "Peers"] = peers
         nm = ("SenRdmaSend_3 Data" if typ == "MultiCast" else "SenRdmaSend_3") if typ != "WDone Barrier" else "SenRdmaReceive_4"
-        b.add(pid, TID_SEND if typ != "WDone Barrier" else TID_RECV, 10.0 * (i + 1), 1000.0 if lng else 5.0,
+        b.add(pid, TID_SEND if typ != "WDone Barrier" else TID_RECV, 10.0 * (i + 1), 10.0 if lng == "touch" else 1000.0 if lng else 5.0,
               f"{nm} [sync={cg}_{sfx}] Dma" + ("I" if typ == "WDone Barrier" else "O"), a)
     return b.ev
 
@@ -631,7 +634,8 @@ def alpha_events(word):
 def grid_words(ctx: Ctx):
     """exhaustive: all words up to the bound over {chain symbols of group 1} x {foreign short event of group 2}"""
     base = [("s01", 1, False), ("r1", 1, False), ("s12", 1, False), ("r2", 1, False), ("x0", 1, False), ("q0", 1, False),
-            ("bc", 1, False), ("md", 1, False), ("s01", 2, False), ("r1", 2, False), ("r1", 1, True), ("q0", 1, True)]
+            ("bc", 1, False), ("md", 1, False), ("s01", 2, False), ("r1", 2, False), ("r1", 1, True), ("q0", 1, True),
+            ("r2", 1, "touch"), ("r1", 2, "touch")]
     L = 3 if ctx.quick() else 4
     for n in range(0, L + 1):
         for w in itertools.product(base, repeat=n):
@@ -683,7 +687,7 @@ def prep_cases(ctx: Ctx):
 def final_cases(ctx: Ctx):
     """permuted complete groups and damaged ones for detect_final"""
     rng = ctx.rng
-    for _ in range(ctx.n(60, 1500)):
+    for _ in range(ctx.n(400, 4000)):
         b = Builder()
         R = rng.choice([2, 3, 4, 5, 8])
         chain_group(b, R, "G", 100.0, mode=rng.choice(["pre", "jit"]))
@@ -900,16 +904,16 @@ def run(ctx: Ctx):
     for w in grid_words(ctx):
         stage_case(alpha_events(w), "grid")
     # (ii) random structured scenarios
-    for i in range(ctx.n(220, 4000)):
+    for i in range(ctx.n(1500, 12000)):
         evs, tags = gen_scenario(ctx.rng)
         for t in tags:
             ctx.count("scenario_" + t)
         stage_case(evs, "scenario:" + "+".join(sorted(tags)))
     # (iii) malformed
-    for i in range(ctx.n(120, 1500)):
+    for i in range(ctx.n(600, 4000)):
         evs, k = malformed(ctx.rng)
         ctx.count("malformed_" + k)
-        stage_case(evs, "malformed:" + k, {"wellformed": k not in ("bph", "emptyph", "nodur", "zerodur")})
+        stage_case(evs, "malformed:" + k, {"wellformed": k not in ("bph", "emptyph", "nodur", "zerodur", "recvname")})
     # (iv) prepare grid
     for e in prep_cases(ctx):
         case = {"kind": "prep", "event": e}
